@@ -55,13 +55,33 @@ Definition fixed_point_spec {A} (eqb : A -> A -> bool) (first : outcome A) (vali
   | _ => true
   end.
 
+(* Meta entries record where settings came from, not the settings (DESIGN A.6).  An object handed back to
+   parse_object carries them in, so they must come out again (veq above looks at them); text cannot carry
+   them, so the dump leg compares configurations with the "__path__" entries of mappings removed. *)
+Definition meta_key (k : val) : bool :=
+  match k with VStr s => str_eqb s [95; 95; 112; 97; 116; 104; 95; 95]%N | _ => false end.
+
+Fixpoint strip_meta (v : val) {struct v} : val :=
+  match v with
+  | VList l => VList (map strip_meta l)
+  | VTuple l => VTuple (map strip_meta l)
+  | VSet l => VSet (map strip_meta l)
+  | VDict d =>
+      VDict ((fix go (d : list (val * val)) : list (val * val) :=
+                match d with
+                | [] => []
+                | (k, x) :: d' => if meta_key k then go d' else (k, strip_meta x) :: go d'
+                end) d)
+  | _ => v
+  end.
+
 (* the dump leg, on observations: parse_string(dump(cfg)) and the two dumped texts
    (None = the dump raised) *)
 Definition dump_spec {A} (eqb : A -> A -> bool) (first : outcome A) (reparsed : outcome A)
                      (text1 text2 : option str) : bool :=
   match first with
   | Accepted w =>
-      outcome_eqb eqb reparsed (Accepted w)
+      outcome_eqb eqb reparsed (Accepted w)      (* eqb is instantiated modulo strip_meta by the judge *)
       && match text1, text2 with Some a, Some b => str_eqb a b | _, _ => false end
   | _ => true
   end.
